@@ -197,6 +197,7 @@ func c30History(x *simkit.Exec) {
 	x.Sample = map[string]any{"part": "history", "ranges": ru, "aligned": aligned, "blocks": desc}
 	x.Nontrivial = true
 
+	lateMarks := x.Draw("lateNoCompactMarks", 3)
 	x.Bubble("history", func(s *simkit.Sim) {
 		bkt := simbucket.New("bucket")
 		ctx := context.Background()
@@ -230,6 +231,28 @@ func c30History(x *simkit.Exec) {
 			planner := compact.NewPlanner(log.NewNopLogger(), ranges, noComp)
 			bound := 3*len(blocks) + 4
 			for step := 0; ; step++ {
+				if step > 0 && step <= lateMarks {
+					// an operator (or the compactor itself, after out-of-order chunks) excludes a block that
+					// the long-lived filter has already looked at without finding a mark
+					var cands []string
+					for n := range bkt.Inner.Objects() {
+						if id, ok := strings.CutSuffix(n, "/meta.json"); ok {
+							if u, err := ulid.Parse(id); err == nil && !marked[u] {
+								cands = append(cands, id)
+							}
+						}
+					}
+					sort.Strings(cands)
+					if len(cands) > 0 {
+						id := cands[x.Tape.Draw("lateMarkBlock", len(cands))]
+						u, _ := ulid.Parse(id)
+						marked[u] = true
+						_ = bkt.Inner.Upload(ctx, id+"/"+metadata.NoCompactMarkFilename,
+							strings.NewReader(fmt.Sprintf(`{"id":%q,"version":1,"no_compact_time":1,"reason":"manual"}`, id)))
+						s.Note("block %s marked no-compact before step %d", bkt.Canon(id), step)
+						s.Probe("c30.block_marked_no_compact_after_first_sync")
+					}
+				}
 				metas, _, err := f.Fetch(ctx)
 				if err != nil {
 					x.Troublef("fetch: %v", err)
